@@ -1,0 +1,18 @@
+//go:build verif
+
+package client
+
+// Contracts for the deductive checks in /verif (comment-only; no code).
+// Property C19 (client half): how Find maps the response onto its result.
+
+// 404 => an empty response and no error; any other non-200 => an error; 200 =>
+// whatever decoding the body yields.
+//@ func (*Client).Find
+//@   property C19
+//@   requires c != nil && c.findURL != nil && c.c != nil && ctx != nil
+//@   ghost status := 0
+//@   at call Do#1: after ghost status := ite(result1 == nil, result0.StatusCode, 0)
+//@   at call UnmarshalFindResponse#1: assert status == 200
+//@   ensures-local status == 404 ==> result1 == nil && result0 != nil && len(result0.MultihashResults) == 0 && count("call:UnmarshalFindResponse") == 0
+//@   ensures-local status != 0 && status != 200 && status != 404 ==> result1 != nil && result0 == nil
+//@   ensures-local status == 200 ==> count("call:ReadAll") == 1
